@@ -21,7 +21,8 @@ TIMEOUT = {'quick': 900, 'thorough': 7200}
 TECHNIQUE = ('runtime monitoring: metamorphic print/parse round trip at the str()/formula() boundary over three formula sources, '
              'normal form of the nesting computed outside the library (groups of count 1 elided, counts rounded to six '
              'significant digits with decimal arithmetic), icontract postcondition on _str_atoms, sys.monitoring reach '
-             'counters on the branches of the printer')
+             'counters on the branches of the printer; Decimal / Fraction / numpy.float64 twins of every parsed structure '
+             'must print the same text')
 LEVEL_TEXT = ('Each generated formula is printed by the real str()/repr() and the printed string is parsed by the real formula(); '
               'the structure of the original (read from Formula.structure, keyed by (Z, A, charge)) and of the re-parsed formula '
               'are compared in a normal form computed by the monitor: same atoms, same nesting modulo groups of count 1, every '
